@@ -17,7 +17,7 @@ import (
 
 func init() {
 	register("C19",
-		"CODEC: for the six GBN packet types and the mailbox MsgData control message the byte layout the writer emits (every success path of Serialize: constant bytes, field bytes, bool encodings, big-endian length prefixes, payload) and the layout the reader consumes (per returned message: tag test, length guard, per-field source expression over the input) are extracted from the SSA and must agree: same tag constant, every field read at the offset where it is written, bool decoding inverts the writer's two constants, the length guard equals the fixed header size, the payload is the rest / the length-prefixed range, all Message implementations covered both ways and tags pairwise distinct; every return of the two readers depends only on tag tests and 'input too short' guards (the reader refuses nothing the writer can emit and has no value-dependent branches). Agreement implies decode(encode(v)) == v for all field values and that encode(decode(b)) decodes to the same value again (bools are canonicalised, trailing bytes ignored). Not decided: behaviour of bytes.Buffer / encoding/binary themselves.",
+		"CODEC: for the six GBN packet types and the mailbox MsgData control message the byte layout the writer emits (every success path of Serialize: constant bytes, field bytes, bool encodings, big-endian length prefixes, payload) and the layout the reader consumes (per returned message: tag test, length guard, per-field source expression over the input) are extracted from the SSA and must agree: same tag constant, every field read at the offset where it is written, bool decoding inverts the writer's two constants, the length guard equals the fixed header size, the payload is the rest / the length-prefixed range, all Message implementations covered both ways and tags pairwise distinct; every return of the two readers depends only on tag tests and 'input too short' guards (the reader refuses nothing the writer can emit and has no value-dependent branches). Agreement implies decode(encode(v)) == v for all field values and that encode(decode(b)) decodes to the same value again (bools are canonicalised, trailing bytes ignored). CODEC error used: at every Serialize/Deserialize call of gbn and mailbox the error result is tested, returned or passed on. Not decided: behaviour of bytes.Buffer / encoding/binary themselves.",
 		[]string{"bytes.Buffer.Write/WriteByte append exactly their argument and do not fail; binary.BigEndian.PutUint32/Uint32 are inverse on 4 bytes"},
 		runC19)
 }
